@@ -26,7 +26,9 @@ REGS = {'p': (('tok', 'P'), [Term('P', (('re', 'a+', ''),))]),
         'e': (('tok', 'E'), [Term('E', (('re', 'a|ab', ''),))])}     # leftmost-first != longest (finding #16)
 WS = Term('WS', (('str', ' ', ''),))
 AB_SP = {'a': (('tok', 'A'), [Term('A', (('str', 'a', ''),))]),
-         'b': (('tok', 'ASB', ), [Term('ASB', (('str', 'a b', ''),))])}
+         'b': (('tok', 'ASB', ), [Term('ASB', (('str', 'a b', ''),))]),
+         'c': (('tok', 'SB', ), [Term('SB', (('str', ' b', ''),))])}      # starts with the ignored character (issue #768)
+AB_SP['d'] = (('tok', 'SX'), [Term('SX', (('str', ' ', ''), ('str', 'b', '')))])    # can match the ignored character itself
 
 ALL3 = ('basic', 'dynamic', 'dynamic_complete')
 DYN = ('dynamic', 'dynamic_complete')
@@ -50,7 +52,7 @@ def box(name):
     if name == 'bi':
         return B(2, 'abc', 2, 2, render=COLL, ignore=('WS',), extra_terms=(WS,)), DYN, 'ab '
     if name == 'bs':
-        return B(2, 'ab', 2, 2, render=AB_SP, ignore=('WS',), extra_terms=(WS,)), DYN, 'ab '
+        return B(2, 'abcd', (2, 1), 2, render=AB_SP, ignore=('WS',), extra_terms=(WS,)), DYN, 'ab '
     if name == 'd':
         return B(2, 'pqrst', (2, 1), 2, render=REGS), DYN, 'ab'
     if name == 'd16':
@@ -65,9 +67,9 @@ def box(name):
 
 
 # (box, slice modulus k or 1, input length L)
-QUICK = [('a1', 1, 5), ('e1', 1, 4), ('a2', 8, 4), ('a2i', 32, 4), ('b', 64, 4), ('bi', 256, 4), ('bs', 8, 5),
+QUICK = [('a1', 1, 5), ('e1', 1, 4), ('a2', 8, 4), ('a2i', 32, 4), ('b', 64, 4), ('bi', 256, 4), ('bs', 32, 4),
          ('d', 32, 4), ('d16', 16, 4), ('e2', 16, 3)]
-THOROUGH = [('a1', 1, 6), ('e1', 1, 5), ('a2', 1, 5), ('a2i', 2, 4), ('b', 4, 4), ('bi', 16, 4), ('bs', 1, 5),
+THOROUGH = [('a1', 1, 6), ('e1', 1, 5), ('a2', 1, 5), ('a2i', 2, 4), ('b', 4, 4), ('bi', 16, 4), ('bs', 2, 5),
             ('d', 2, 4), ('d16', 1, 5), ('e2', 1, 4), ('e2i', 4, 4), ('a3', 4, 4), ('k3', 4, 5)]
 CHUNK = 96
 
